@@ -121,6 +121,36 @@ chk("C13", "model_checking",
     "DESIGN.md section 4, C13")
 
 
+chk("C11", "model_checking",
+    "TLC enumerates (spec/GenCalls.tla) the 23 pure builtins at their documented arities with every combination of "
+    "60 boundary arguments (integer limits, surrogate-range and out-of-range code points, NaN/inf, rounding ties, "
+    "non-ASCII strings, valid / overlong / surrogate / truncated UTF-8 byte arrays, mixed arrays) and at every other "
+    "arity 0..3 with a reduced set (thorough: all 34 000 cases; quick: argument pairs thinned out). Each call's "
+    "result, in-place effect on its first argument, failure and the builtin name in the error message are validated "
+    "by TLC against the contracts in spec/Builtins.tla (decimal conversion over Int64, UTF-8 codec written out, "
+    "sortedness by the operator model). Seeded random round-trip law programs (int(str(n)), decode(encode(s)), "
+    "join(chars(s)), len(encode_utf8(s)), sort).",
+    "Where the documentation names an accepted kind but not the result (text of str() for non-integers, char/byte "
+    "of out-of-range numbers, rounding ties, non-ASCII case mapping, float(str(x)) for non-dyadic x) only success "
+    "and result kind are required; floats outside the dyadic model are not compared.",
+    "TLA+ builtin contracts evaluated by TLC; TLC-enumerated calls replayed into the implementation; executions "
+    "trace-validated by TLC", "DESIGN.md section 4, C11")
+
+chk("C08", "model_checking",
+    "In-process under catch_unwind with a watchdog: TLC-enumerated builtin calls (GenCalls) and operator table "
+    "(GenOps, thorough), resource-bound scenarios (recursion with 0/1/3 parameters and mutual, depths around "
+    "MAX_FRAMES, 0-300 locals at increasing stack heights, literals and argument lists around STACK_SIZE / 255), "
+    "hostile boundary operations, seeded random programs; validated by spec/Conform.tla where a panic, abort or hang "
+    "is never an allowed outcome. End to end through the binary with packet input, validated by spec/Total.tla: "
+    "exit(n) status, runtime errors in filter patterns / actions / end filters, break / continue / return in "
+    "actions, filters inside functions / blocks / loops, non-boolean patterns, empty / garbage / missing input.",
+    "Totality is a property of the implementation that a specification cannot see; the specification states the "
+    "allowed terminal outcomes and the conformance layer observes the real process. Excluded as in the property: "
+    "memory exhaustion, self-containing containers.",
+    "TLA+ outcome specification; enumerated and random cases executed by the implementation; executions "
+    "trace-validated by TLC", "DESIGN.md section 4, C08")
+
+
 def main():
     props = [json.loads(l)["id"] for l in open(os.path.join(VERIF, "properties.jsonl"))]
     na = [{"property_id": p, "reason": NOT_APPLICABLE.get(p, "check not built yet in this round (planned, see DESIGN.md section 8)")}
